@@ -126,7 +126,9 @@ Inductive item :=
 Inductive value :=
 | VItem (i : item)
 | VList (l : list item)
-| VDir (files : list (string * N)).     (* sha1 and size of every file below the directory *)
+| VDir (files : list (string * N))      (* sha1 and size of every file below the directory *)
+| VRecord (fields : list item)          (* a record: the values of its fields *)
+| VColl (sha1 : string) (size : N) (secs : list (string * N)).   (* a File with its secondaryFiles *)
 
 Record rv := RV { rv_in : bool; rv_param : string; rv_val : value }.
 
@@ -218,6 +220,24 @@ Fixpoint items_ok (g : graph) (ar : list entry) (js : list json) (its : list ite
 
 Definition as_list (j : json) : list json := match j with JArr l => l | _ => [j] end.
 
+(* entity e (whose id is x) carries the item; the entity called y carries the item *)
+Definition ival_ok (g : graph) (ar : list entry) (e : json) (x : string) (it : item) : bool :=
+  match it with
+  | IFile h s => file_ok g ar x h s
+  | ILit alts =>
+      has_type e "PropertyValue" &&
+      match get e "value" with Some j => item_ok g ar j (ILit alts) | None => false end
+  | IDir files => has_type e "Dataset" && dir_files_ok g ar x files
+  end.
+
+Definition icarried (g : graph) (ar : list entry) (y : string) (it : item) : bool :=
+  existsb (fun e => id_is e y &&& ival_ok g ar e y it) g.
+
+(* the elements of a record's value array are the carriers of its fields: every field has one, every element is one *)
+Definition record_ok (g : graph) (ar : list entry) (js : list json) (fields : list item) : bool :=
+  forallb (fun it => existsb (fun el => match ref_of el with Some y => icarried g ar y it | None => false end) js) fields &&
+  forallb (fun el => match ref_of el with Some y => existsb (icarried g ar y) fields | None => false end) js.
+
 (* entity e (whose id is x) carries the value *)
 Definition val_ok (g : graph) (ar : list entry) (e : json) (x : string) (v : value) : bool :=
   match v with
@@ -230,6 +250,16 @@ Definition val_ok (g : graph) (ar : list entry) (e : json) (x : string) (v : val
       match get e "value" with Some j => items_ok g ar (as_list j) its | None => false end
   | VItem (IDir files) => has_type e "Dataset" && dir_files_ok g ar x files
   | VDir files => has_type e "Dataset" && dir_files_ok g ar x files
+  | VRecord fields =>
+      has_type e "PropertyValue" &&
+      match get e "value" with Some j => record_ok g ar (as_list j) fields | None => false end
+  | VColl h s secs =>
+      has_type e "Collection" &&
+      match get e "mainEntity" with
+      | Some j => match ref_of j with Some y => file_ok g ar y h s | None => false end
+      | None => false
+      end &&
+      forallb (fun f => existsb (fun z => file_ok g ar z (fst f) (snd f)) (prop_refs e "hasPart")) secs
   end.
 
 Definition name_is (e : json) (n : string) : bool :=
@@ -322,7 +352,8 @@ Definition sv_ok (g : graph) (ar : list entry) (v : sv) : bool :=
 Definition steps_ok (g : graph) (ar : list entry) (ss : list sv) : bool := forallb (sv_ok g ar) ss.
 
 Definition crate_ok (g : graph) (ar : list entry) (vs : list rv) (ss : list sv) : bool :=
-  all_ids g && nodupb (ids g) && refs_ok g && files_ok g ar && values_ok g ar vs && steps_ok g ar ss.
+  all_ids g && nodupb (ids g) && refs_ok g && nodupb (map en_name ar) && files_ok g ar && values_ok g ar vs &&
+  steps_ok g ar ss.
 
 (* ---------------------------------------------------------------- the metadata document
    ro-crate-metadata.json as a whole: a JSON-LD document with an @context and an @graph array *)
